@@ -1034,6 +1034,74 @@ def probe_shapes(scratch):
     return ok, detail
 
 
+
+# wave 10: an XMILE model registered through a SCENARIO FILE whose scenarios override the run specs of the <sim_specs> (dt decimal /
+# reciprocal / binary, start, stop).  The transpiled model must be Euler-exact on the SCENARIO's grid (rows and values), on the first
+# and on the second run, and agree with the DSL twin run with the same spec.
+RS_ELEMS = [("stock", ("L", 10.0), [1, 2], [3], False), ("flow", True, ("*", ("L", 0.2), ("R", 0))), ("flow", False, ("-", ("L", 3.0), ("T",))),
+            ("flow", True, ("*", ("R", 4), ("R", 0))), ("aux", ("+", ("L", 0.1), ("D",)))]
+RS_FILE_SPEC = ("0", "2", ("0.25", None))
+RS_SCENARIOS = [("fileSpec", {}, (0.0, 2.0, 0.25)), ("decimalDt", {"dt": 0.1}, (0.0, 2.0, 0.1)), ("fineDt", {"dt": 0.05, "stoptime": 3.0}, (0.0, 3.0, 0.05)),
+                ("recipDt", {"dt": 1 / 3, "stoptime": 4.0}, (0.0, 4.0, 1 / 3)), ("binaryDt", {"starttime": 1.0, "dt": 0.125}, (1.0, 2.0, 0.125)),
+                ("coarseDt", {"dt": 0.5, "stoptime": 3.0}, (0.0, 3.0, 0.5))]
+
+
+def write_runspec_project(folder):
+    """scenario file + .stmx in `folder` (must exist before bptk() is created with `folder` as working directory)"""
+    os.makedirs(os.path.join(folder, "scenarios"), exist_ok=True)
+    os.makedirs(os.path.join(folder, "rsmodels"), exist_ok=True)
+    with open(os.path.join(folder, "rsmodels", "rs_model.stmx"), "w") as f:
+        f.write(xmile_doc(RS_ELEMS, RS_FILE_SPEC[0], RS_FILE_SPEC[1], RS_FILE_SPEC[2], name="rs_model"))
+    with open(os.path.join(folder, "scenarios", "c04rs.json"), "w") as f:
+        json.dump({"smC04rs": {"model": "rsmodels/rs_model", "source": "rsmodels/rs_model.stmx",
+                               "scenarios": {name: ({"runspecs": rs} if rs else {}) for name, rs, _ in RS_SCENARIOS}}}, f, indent=1)
+
+
+def check_runspec_scenarios(bp, only=None):
+    """returns (first failure dict or None, per-scenario notes)"""
+    import contextlib, io
+    names = [nm(i) for i in range(len(RS_ELEMS))]
+    notes, fail = {}, None
+    for sname, rs, (start, stop, dt) in RS_SCENARIOS:
+        if only is not None and sname != only:
+            continue
+        labels = impl_labels(start, stop, dt)
+        ref = ref_euler(RS_ELEMS, dt, labels)
+        dslm = build_dsl(RS_ELEMS, start, stop, dt, name="c04rsd" + sname.lower())
+        dsl = run_dsl(dslm, len(RS_ELEMS), labels)
+        for run in ("first", "second"):
+            try:
+                with contextlib.redirect_stdout(io.StringIO()):
+                    df = bp.run_scenarios(scenario_managers=["smC04rs"], scenarios=[sname], equations=names, series_names={}, return_format="df")
+                idx = [float(x) for x in df.index]
+                cols = {q: (q if q in df.columns else next(cn for cn in df.columns if cn.endswith("_" + q))) for q in names}
+                rows = [[float(df[cols[q]].iloc[k]) for q in names] for k in range(len(idx))]
+                problem = None
+                if len(idx) != len(labels):
+                    problem = f"{len(idx)} rows (first times {idx[:4]}), the scenario's grid start={start} stop={stop} dt={dt} has {len(labels)} points"
+                elif any(abs(a - b) > 1e-9 for a, b in zip(idx, labels)):
+                    k = next(i for i, (a, b) in enumerate(zip(idx, labels)) if abs(a - b) > 1e-9)
+                    problem = f"row {k} has time {idx[k]!r}, the scenario's grid point is {labels[k]!r}"
+                else:
+                    for k in range(len(labels)):
+                        for i in range(len(names)):
+                            if not math.isclose(rows[k][i], ref[k][i], rel_tol=1e-12, abs_tol=1e-12):
+                                problem = f"{names[i]} at t={labels[k]!r} is {rows[k][i]!r}, explicit Euler on the scenario's grid gives {ref[k][i]!r}"
+                                break
+                            if not math.isclose(dsl[k][i], ref[k][i], rel_tol=1e-12, abs_tol=1e-12):
+                                problem = f"DSL twin: {names[i]} at t={labels[k]!r} is {dsl[k][i]!r}, explicit Euler gives {ref[k][i]!r}"
+                                break
+                        if problem:
+                            break
+            except BaseException as ex:
+                problem = f"run_scenarios raises {type(ex).__name__}: {str(ex)[:150]}"
+            notes[f"{sname}/{run}"] = "ok" if problem is None else problem
+            if problem is not None and fail is None:
+                fail = {"kind": "scenario-runspecs", "scenario": sname, "runspecs": rs, "spec": [start, stop, dt], "run": run, "problem": problem,
+                        "file_spec": [RS_FILE_SPEC[0], RS_FILE_SPEC[1], RS_FILE_SPEC[2][0]]}
+    return fail, notes
+
+
 def lean_list(xs):
     return "[" + ", ".join(xs) + "]"
 
@@ -1100,6 +1168,7 @@ def _run(chk, scratch):
     os.chdir(scratch)
     if scratch not in sys.path:
         sys.path.insert(0, scratch)
+    write_runspec_project(scratch)
     bp = BPTK_Py.bptk()
     try:
         _run2(chk, scratch, bp)
@@ -1123,6 +1192,11 @@ def _run2(chk, scratch, bp):
     lerp_rows, lerp_fail, lerp_count = probe_lerp(lmod, chk.rng.fork("c04-lerp"), chk.quick)
     lerp_rows_ok = all(r[3] for r in lerp_rows) and len(lerp_rows) > 0
     chk.notes["lerp_probe"] = {"calls": lerp_count, "kernel_rows": len(lerp_rows), "first_failure": lerp_fail}
+    rs_fail, rs_notes = check_runspec_scenarios(bp)
+    chk.notes["scenario_runspecs"] = rs_notes
+    chk.notes["cfg"]["xmileRunGridUsesModelDt"] = rs_fail is None or "rows" not in rs_fail["problem"]
+    for k_ in rs_notes:
+        chk.case(("scenario-runspecs", k_), nontrivial=True)
     shapes_ok, shapes_detail = probe_shapes(scratch)
     chk.notes["shape_probe"] = {k: v for k, v in shapes_detail.items() if k != "first"}
     chk.case(("shape-probe",), nontrivial=True)
@@ -1360,6 +1434,9 @@ def _run2(chk, scratch, bp):
             sf = spec_failure(small, ev) or (key, text, detail)
         chk.add_finding(sf[0], sf[1], {"case": small.to_json(), "xmile": xmile_doc(small.elems, small.start, small.stop, small.d),
                                        "detail": sf[2], "dt": dt_name(small.d)})
+    elif rs_fail is not None:
+        chk.add_finding("xmile-scenario-runspecs", f"XMILE model (<sim_specs> start 0 stop 2 dt 0.25) run through scenario {rs_fail['scenario']!r} with runspecs "
+                        f"{rs_fail['runspecs']} ({rs_fail['run']} run): {rs_fail['problem']}", rs_fail)
     elif not shapes_ok:
         f = shapes_detail["first"]
         chk.add_finding("xmile-name-or-module-shape", f"the same stock/flow graph written with {f['variant']} ({f['dt_xml']}): stock {f['key']} = "
@@ -1377,7 +1454,7 @@ def _run2(chk, scratch, bp):
         lab, got, want = bad_probe[0]
         chk.add_finding("xmile-not-euler", f"probe: stock with inflow 1, dt 0.1: S({lab!r}) = {got!r}, Euler gives {want!r}",
                         {"case": probe_case.to_json(), "detail": {"bad": bad_probe[:5]}, "dt": "0.1"})
-    have_input = first_fail is not None or not flow_gf_ok or not normalises or lerp_fail is not None or not shapes_ok      # a finding with a concrete failing input was reported above
+    have_input = first_fail is not None or not flow_gf_ok or not normalises or lerp_fail is not None or not shapes_ok or rs_fail is not None      # a finding with a concrete failing input was reported above
     if (skel_bad or not builder_ok) and not have_input:
         a, b, text = (skel_bad or bld_tok_bad or [(x[0], x[1], x[4]) for x in bld_bad])[0]
         chk.add_finding("obligation", f"StockExpressions no longer builds the modelled net-flow node ({a} inflows / {b} outflows: {text[:200]}); "
@@ -1401,6 +1478,30 @@ def replay(path):
     import warnings
     warnings.filterwarnings("ignore")
     r = json.load(open(path))["replay"]
+    if r.get("kind") == "scenario-runspecs":
+        import BPTK_Py
+        scratch = scratch_dir("bptkc04r")
+        cwd = os.getcwd()
+        bp = None
+        try:
+            os.chdir(scratch)
+            sys.path.insert(0, scratch)
+            write_runspec_project(scratch)
+            bp = BPTK_Py.bptk()
+            fail, notes = check_runspec_scenarios(bp, only=r["scenario"])
+            print(f"scenario {r['scenario']!r} runspecs {r['runspecs']} over <sim_specs> {r['file_spec']}: {notes}")
+            return 1 if fail else 0
+        finally:
+            try:
+                if bp is not None:
+                    bp.destroy()
+            except Exception:
+                pass
+            os.chdir(cwd)
+            if scratch in sys.path:
+                sys.path.remove(scratch)
+            import shutil
+            shutil.rmtree(scratch, ignore_errors=True)
     if r.get("kind") == "shape":
         scratch = scratch_dir("bptkc04r")
         cwd = os.getcwd()
